@@ -349,7 +349,6 @@ theorem queryText_chars (q : List (Text × Option Text)) (hq : ∀ kv ∈ q, Pai
 /-- "a valid scheme, host and port", an absolute path, no (empty key, no value) parameter, and every
     component faithfully quoted in the mode at hand (`D` = what it decodes to) -/
 structure WFq (u : URL) : Prop where
-  scheme_ne : u.scheme ≠ []
   scheme_ok : ∀ c ∈ u.scheme, notIn schemeStop c = true
   host_ne : u.host ≠ []
   host_form : HostOK env full u
@@ -378,7 +377,7 @@ def normalG (u : URL) : URL :=
 
 /-- the rendered text, spelled out -/
 def urlText (u : URL) : Text :=
-  u.scheme ++ 58 :: 47 :: 47 :: ((uiText env u ++ hostinfo u) ++
+  spart u.scheme ++ 47 :: 47 :: ((uiText env u ++ hostinfo u) ++
     (pathText env full u.pathParts ++ (qpart (queryText env full u.query) ++
       fpart (quotePart .fragment env.nfc full u.fragment))))
 
@@ -387,21 +386,21 @@ theorem toText_urlText (u : URL) (hW : WFq env full D u) : toText env full u = .
   have hf := hostFacts_of_ok env full u hW.host_ne hW.port_ok hW.host_form
   unfold toText
   rw [authority_any env full u hW.host_ne hW.host_form]
-  simp only [hW.scheme_ne, false_and, if_false]
-  congr 1
   have hauth : uiText env u ++ hostinfo u ≠ [] := by simp [hf.ne]
+  simp only [hauth, and_false, if_false]
+  congr 1
   have hpath := pathText_abs env full hW.q_nil rest
   rw [← hrest] at hpath
-  unfold assemble urlText qpart fpart
-  simp only [hW.scheme_ne, ne_eq, not_false_eq_true, if_true, hauth, true_and]
+  unfold assemble urlText qpart fpart spart
+  simp only [ne_eq, hauth, not_false_eq_true, if_true]
   have hp : (if ¬ pathText env full u.pathParts = [] then
-      (if ¬ (pathText env full u.pathParts).head? = some 47 then 47 :: pathText env full u.pathParts
+      (if ¬ u.scheme = [] ∧ True ∧ ¬ (pathText env full u.pathParts).head? = some 47 then 47 :: pathText env full u.pathParts
        else pathText env full u.pathParts) else []) = pathText env full u.pathParts := by
     rcases hpath with h | h
     · simp [h]
     · simp [h]
   rw [hp]
-  simp [List.append_assoc]
+  by_cases hsn : u.scheme = [] <;> simp [hsn, List.append_assoc]
 
 theorem urlText_scanned (u : URL) (hW : WFq env full D u) :
     Scanned (urlText env full u) u.scheme (uiText env u ++ hostinfo u)
@@ -410,7 +409,7 @@ theorem urlText_scanned (u : URL) (hW : WFq env full D u) :
   obtain ⟨rest, hrest⟩ := hW.path_abs
   have hpath := pathText_abs env full hW.q_nil rest
   rw [← hrest] at hpath
-  exact scan_composed _ _ _ _ _ hW.scheme_ne hW.scheme_ok
+  exact scan_composed _ _ _ _ _ hW.scheme_ok
     (authText_chars env u (hostFacts_of_ok env full u hW.host_ne hW.port_ok hW.host_form)
       hW.user_scalar hW.pw_scalar)
     (pathText_chars env full D u.pathParts hW.q_parts) hpath
@@ -529,7 +528,6 @@ theorem normalG_urlText (u : URL) : urlText env full (normalG env D u) = urlText
 
 include hl hD hDD hDnil in
 theorem normalG_WFq (u : URL) (hW : WFq env full D u) : WFq env full D (normalG env D u) where
-  scheme_ne := hW.scheme_ne
   scheme_ok := hW.scheme_ok
   host_ne := hW.host_ne
   host_form := by
@@ -606,7 +604,6 @@ structure Scalars (env : Env) (u : URL) : Prop where
 /-- FULL quoting: "a valid scheme, host (registered name / IPv4 / IPv6 literal) and port" (absent or any natural
     number, `port = *DIGIT`) + an absolute path + no (empty key, no value) parameter; the component texts are arbitrary -/
 structure WF (env : Env) (u : URL) : Prop where
-  scheme_ne : u.scheme ≠ []
   scheme_ok : ∀ c ∈ u.scheme, notIn schemeStop c = true
   host_ne : u.host ≠ []
   host_form : HostOK env true u
@@ -620,7 +617,6 @@ theorem quotePart_nil_full (c : Comp) (nfc : Text → Text) (hnil : nfc [] = [])
   simp [quotePart, quoteFull, utf8, hnil]
 
 theorem WF.toWFq {env : Env} {u : URL} (hW : WF env u) (hnil : env.nfc [] = []) : WFq env true env.nfc u where
-  scheme_ne := hW.scheme_ne
   scheme_ok := hW.scheme_ok
   host_ne := hW.host_ne
   host_form := hW.host_form
@@ -640,7 +636,6 @@ theorem WF.toWFq {env : Env} {u : URL} (hW : WF env u) (hnil : env.nfc [] = []) 
 /-- `WF` does not care which natural number the port is (or whether there is one) -/
 theorem WF.withPort {env : Env} {u : URL} (hW : WF env u) (p : Option Nat) :
     WF env { u with port := p.map Int.ofNat } where
-  scheme_ne := hW.scheme_ne
   scheme_ok := hW.scheme_ok
   host_ne := hW.host_ne
   host_form := by
@@ -665,7 +660,6 @@ def fullText (env : Env) (u : URL) : Text := urlText env true u
 /-- MINIMAL quoting: the same shape, and no `%` in a path segment, query key / value or fragment
     (username and password are always fully quoted, so they may contain anything) -/
 structure WFmin (env : Env) (u : URL) : Prop where
-  scheme_ne : u.scheme ≠ []
   scheme_ok : ∀ c ∈ u.scheme, notIn schemeStop c = true
   host_ne : u.host ≠ []
   host_form : HostOK env false u
@@ -680,7 +674,6 @@ structure WFmin (env : Env) (u : URL) : Prop where
   no_pct_frag : 37 ∉ u.fragment
 
 theorem WFmin.toWFq {env : Env} {u : URL} (hW : WFmin env u) : WFq env false id u where
-  scheme_ne := hW.scheme_ne
   scheme_ok := hW.scheme_ok
   host_ne := hW.host_ne
   host_form := hW.host_form
